@@ -53,6 +53,8 @@ def cases(tier, sd):
             n1=(9 if style == 'solution' else int(rng.choice([6, 7, 8]))),
             order=(2 if style == 'solution' else int(rng.choice([2, 4]))),
             mode=('open' if style == 'solution' else 'periodic'),
+            noncubic=([int(v) for v in rng.permutation(3)]
+                      if style != 'solution' and rng.random() < 0.4 else None),
             cache=dict(every=int(rng.choice([1, 2, 3, 5, 8, 20])),
                        gb=float(scal * 10 ** rng.uniform(-0.5, 3.0)),
                        importance=({'s_Gamma_udd3': float(rng.choice([0.002, 1.0, 50.0])),
@@ -81,7 +83,12 @@ def run_walk(spec, n, ops, scale_gb=1.0, fresh_for=None, ledger=None, audit=None
     if spec['member']['family'] == 'solution':
         lo, L = H.SOLUTIONS[spec['member']['module']]['box']
     if spec.get('mode', 'periodic') == 'periodic':
-        d = L / n
+        if spec.get('noncubic'):          # three different sizes and spacings
+            f = n // spec['n1']
+            n = tuple(f * (spec['n1'] + k) for k in spec['noncubic'])
+            d = tuple(L / k for k in n)
+        else:
+            d = L / n
         fd = harness.make_fd(n, lo, d, order=spec['order'], boundary='periodic')
     else:
         d = L / (n - 1)
